@@ -200,6 +200,50 @@ type runner struct {
 	inFl    atomic.Bool
 	midBusy atomic.Bool
 	midWG   sync.WaitGroup
+
+	// mid-commit reader (Script.Mid): a transaction that begins while a commit is between its
+	// decision and its writes (worker 6) reads every key at once and again after the commit returned
+	mcResume chan struct{}
+	mcDone   chan struct{}
+}
+
+// midCommit runs on the committing goroutine at cm.apply.pre. With the commit-mark wait of Begin
+// the reader simply blocks until the commit is finished; whatever it sees, it must see it twice.
+func (r *runner) midCommit() {
+	if r.mcDone != nil {
+		return
+	}
+	r.mcResume, r.mcDone = make(chan struct{}), make(chan struct{})
+	first := make(chan struct{})
+	go func(resume, done chan struct{}) {
+		defer close(done)
+		c := r.st.Sess(6)
+		c.Begin(false)
+		for k := 1; k <= r.s.NKeys; k++ {
+			c.Get(k)
+		}
+		close(first)
+		<-resume
+		for k := 1; k <= r.s.NKeys; k++ {
+			c.Get(k)
+		}
+		c.Discard()
+	}(r.mcResume, r.mcDone)
+	select {
+	case <-first:
+	case <-time.After(4 * time.Millisecond):
+	}
+}
+
+// midCommitJoin: the commit has returned; let the reader read again and finish.
+func (r *runner) midCommitJoin() {
+	if r.mcDone == nil {
+		return
+	}
+	close(r.mcResume)
+	<-r.mcDone
+	r.mcResume, r.mcDone = nil, nil
+	r.res.MidReads++
 }
 
 // midStage runs on the flusher's goroutine, before one of its file-system operations (it may
@@ -261,6 +305,10 @@ func (r *runner) onClient(point string, args []any) {
 		return
 	}
 	switch point {
+	case "cm.apply.pre":
+		if r.s.Mid && r.s.Seed%3 != 0 {
+			r.midCommit()
+		}
 	case "cm.enq.pre", "cl.enq.pre":
 		n, capa := args[0].(int), args[1].(int)
 		if n < capa {
@@ -339,6 +387,12 @@ func (r *runner) readAll() {
 }
 
 func (r *runner) step(step Step) error {
+	err := r.step1(step)
+	r.midCommitJoin() // a commit of this step may have started the mid-commit reader
+	return err
+}
+
+func (r *runner) step1(step Step) error {
 	switch step.Op {
 	case "txn", "abandon":
 		r.c.Begin(true)
@@ -347,7 +401,9 @@ func (r *runner) step(step Step) error {
 		}
 		switch {
 		case step.Op == "txn":
-			if r.c.Commit() == "ok" {
+			ok := r.c.Commit() == "ok"
+			r.midCommitJoin()
+			if ok {
 				r.res.Commits++
 			}
 		case step.How == "fail": // DB.Update whose closure fails: nothing may be applied
@@ -536,6 +592,10 @@ func implStream(evs []gate.Event) []ImplEvent {
 		switch e.Point {
 		case "api":
 			a := e.Args[0].(rec.Event)
+			if a.W == 6 {
+				continue // the mid-commit reader: its Begin returns when the commit mark is done, which the
+				// engine does right before the cm.done hook reports it - judged by the contract only
+			}
 			switch a.Ev {
 			case "BeginResp":
 				out = append(out, ImplEvent{Ev: "begin", W: a.W})
